@@ -57,6 +57,8 @@ def w_tdvp1(ctx, rng, idx):
     nz = 0 if rng.random() < 0.8 else 2
     ctx.describe({'op': 'tdvp1site', 'dims': dims, 'complex': cplx, 'ranks': x0.ranks, 'kind': kind, 'h': h, 'steps': N, 'normalize': nz})
     call('ode.tdvp1site', ode.tdvp1site, H, x0, h, N, prop=P, tags=['scheme=tdvp1site'], normalize=nz)
+    if rng.random() < 0.4:  # the same operator / state objects again with another step size and step count
+        call('ode.tdvp1site', ode.tdvp1site, H, x0, float(rng.uniform(0.01, 0.3)), int(rng.integers(1, 4)), prop=P, tags=['scheme=tdvp1site', 'second_call'], normalize=nz)
     if idx < 3:
         ctx.sample({'workload': 'tdvp1site', 'dims': dims, 'complex_operator': cplx, 'initial_ranks': x0.ranks, 'h': h, 'steps': N})
 
@@ -69,7 +71,10 @@ def w_tdvp2(ctx, rng, idx):
     thr = [0, 1e-12][int(rng.integers(0, 2))]
     mr = [10 ** 4, np.inf, 2][int(rng.integers(0, 3))] if kind != 'maximal' else [10 ** 4, np.inf][int(rng.integers(0, 2))]
     ctx.describe({'op': 'tdvp2site', 'dims': dims, 'complex': cplx, 'ranks': x0.ranks, 'kind': kind, 'h': h, 'steps': N, 'threshold': thr, 'max_rank': str(mr)})
-    call('ode.tdvp2site', ode.tdvp2site, H, x0, h, N, prop=P, tags=['scheme=tdvp2site'], threshold=thr, max_rank=mr)
+    nz = 0 if rng.random() < 0.8 else 2
+    call('ode.tdvp2site', ode.tdvp2site, H, x0, h, N, prop=P, tags=['scheme=tdvp2site'], threshold=thr, max_rank=mr, normalize=nz)
+    if rng.random() < 0.4:
+        call('ode.tdvp2site', ode.tdvp2site, H, x0, float(rng.uniform(0.01, 0.3)), int(rng.integers(1, 4)), prop=P, tags=['scheme=tdvp2site', 'second_call'], threshold=thr, max_rank=mr)
     if idx < 2:
         ctx.sample({'workload': 'tdvp2site', 'dims': dims, 'initial_ranks': x0.ranks, 'h': h, 'steps': N, 'threshold': thr, 'max_rank': str(mr)})
 
@@ -93,7 +98,9 @@ def w_krylov(ctx, rng, idx):
         x0 = (1.0 / x0.norm()) * x0
     h = float(rng.uniform(0.05, 1.0))
     ctx.describe({'op': 'krylov', 'dims': dims, 'complex': cplx, 'dimension': n, 'h': h})
-    call('ode.krylov', ode.krylov, H, x0, n, h, prop=P, threshold=[0, 1e-14][int(rng.integers(0, 2))], max_rank=10 ** 4)
+    call('ode.krylov', ode.krylov, H, x0, n, h, prop=P, threshold=[0, 1e-14][int(rng.integers(0, 2))], max_rank=10 ** 4, normalize=[0, 0, 2][int(rng.integers(0, 3))])
+    if rng.random() < 0.4:  # the same operator / state objects again with another step size
+        call('ode.krylov', ode.krylov, H, x0, n, float(rng.uniform(0.05, 1.0)), prop=P, threshold=0, max_rank=10 ** 4, tags=['second_call'])
     if rng.random() < 0.3 and n > 2:  # small Krylov space: only structure / inputs unchanged are asserted
         call('ode.krylov', ode.krylov, H, x0, 2, h, prop=P)
 
